@@ -170,6 +170,21 @@ func RunStream(c *Ctx, cfg StreamCfg, handle func(w *Worker, sc StrCase, res *[s
 			})
 		}
 	}
+	// (a4) COMPLETE: every assignment with at most 2 optional metrics defined x all their values, canonical and spelled
+	if cfg.Cover {
+		for vi, v := range spec.Versions {
+			vi, v := vi, v
+			subsets := gen.SparseSubsets(v, 2)
+			c.Parallel("at-most-2-defined-"+v.Name, len(subsets), 2, func(w *Worker, i int) {
+				base := gen.KSparseAssign(w.R, v, 0)
+				gen.EnumSubsetValues(v, base, subsets[i], func(a spec.Assign) {
+					do(w, StrCase{v.Canonical(a), vi, "at-most-2-defined-canonical"})
+					sp, _ := gen.RandomSpelling(w.R, v, a)
+					do(w, StrCase{sp, vi, "at-most-2-defined-spelled"})
+				})
+			})
+		}
+	}
 	// (a3) COMPLETE: every prefix of the base group (0..all base metrics) followed by ONE optional
 	// metric with each of its values; and followed by every ordered pair of optional metrics (first values):
 	// the shapes where a parser's "skip ahead in the order table" logic can jump over the mandatory check
